@@ -81,6 +81,8 @@ def c05_block(e1: int, p1: int, e2: int, p2: int, g2: int, d: int) -> bool:
         in_region = False
         try:
             ev1 = EVENTS[e1]
+            if S.get('spawn_cost', 0) > 0.001 and EVENTS[e2] in (scen.EV_RELOAD, scen.EV_SETOPT):
+                return rt.skip()      # a parallel reload spawns numprocesses workers back to back by design: not charged here
             if ev1 == scen.EV_START and not S.get('respawn', True):
                 # `start` on an ACTIVE watcher that is short of workers (respawn off, one died)
                 k.external_kill(k.alive_pids('a')[0])
@@ -105,14 +107,15 @@ def c05_block(e1: int, p1: int, e2: int, p2: int, g2: int, d: int) -> bool:
                 pass
             ok = _probe(w) and ok
             # let everything finish; all waits are bounded by the grace periods and warm-up delays
-            bound = 4 * _gt() + 6 * warm + 0.5 + 20 * S.get('spawn_cost', 0.001)
-            t_lim = w.clock.now + 3 * bound + 5.0
+            # the applicable grace periods and warm-up delays: one of each per worker the operations may touch
             try:
                 w.run_until(lambda: all(r.replies for e, r in sc.reqs if r.msg['properties'].get('waiting')) and
-                            w.arbiter._exclusive_running_command is None, max_time=3 * bound + 5.0)
+                            w.arbiter._exclusive_running_command is None, max_time=40.0)
                 sc.settle(checks=1)
             except scen.BlockedLoop:
                 pass
+            nwork = len(k.spawn_log) + 2      # (a concrete count: every worker that ever existed in this run)
+            bound = nwork * (_gt() + warm + S.get('spawn_cost', 0.001)) + 0.5
             if w.clock.tripped or w.clock.blocked_max > 0.05:
                 if in_region and rt.finding_listed('c05.reap_process_busy_wait'):
                     return rt.skip()
